@@ -81,21 +81,23 @@ Definition gen_default_samples (st : jbst) : jbst * nat :=
                 fold_left (fun st s => let '(st, l) := jleaf true s st in jadd root l st) samples st)
              default_samples st, root).
 
-(* parse_enum *)
+(* parse_enum: the two lists of values it turns into leaves, as pure functions of the keywords read *)
+Definition enum_invalid (ne en : list json) : list json := pdiff (pset ne) (pset en).
+Definition enum_valid (ne en : list json) : list json := pdiff (pset en) (enum_invalid ne en).
+Definition enum_maxlen (valid : list json) : nat := fold_left (fun m v => Nat.max m (pystr_len v)) valid 0.
+Definition enum_filler (valid : list json) : json := JStr (repeat 35 (S (enum_maxlen valid))).
+Definition enum_invalid' (ne en : list json) : list json :=
+  let filler := enum_filler (enum_valid ne en) in
+  if pmem filler (enum_invalid ne en) then enum_invalid ne en else enum_invalid ne en ++ [filler].
+
 Definition parse_enum (d : dict) (p : pointer) (st : jbst) : res (jbst * nat) :=
   do ne <- read_list d "NOT_enum"; do en <- read_list d "enum";
   let ne := match ne with Some l => l | None => [] end in
   let en := match en with Some l => l | None => [] end in
   if negb (hashable_all ne && hashable_all en) then jerr else      (* only scalar members (after the fix; TypeError before) *)
-  let invalid := pdiff (pset ne) (pset en) in
-  let valid := pdiff (pset en) invalid in
   let '(st, root) := jnoop false (Some (pstr p)) st in
-  let '(st, maxlen) :=
-    fold_left (fun '(st, m) v => let '(st, l) := jleaf true v st in (jadd root l st, Nat.max m (pystr_len v)))
-              valid (st, 0) in
-  let filler := JStr (repeat 35 (S maxlen)) in
-  let invalid' := if pmem filler invalid then invalid else invalid ++ [filler] in
-  Ok (fold_left (fun st v => let '(st, l) := jleaf false v st in jadd root l st) invalid' st, root).
+  let st := fold_left (fun st v => let '(st, l) := jleaf true v st in jadd root l st) (enum_valid ne en) st in
+  Ok (fold_left (fun st v => let '(st, l) := jleaf false v st in jadd root l st) (enum_invalid' ne en) st, root).
 
 (* parse_number: the values it emits, as a pure function of the keywords read
    (mn/mx are the inclusive bounds after exclusiveMinimum + 1 / exclusiveMaximum - 1) *)
